@@ -220,4 +220,20 @@ PROPS = {
         "level_note": "partial: fetch_trial_logs is covered statically only (needs a clientset); the static skeleton abstracts control flow to top/branch/loop positions",
         "assumptions": ["every gate's namespace expression evaluates to the request's namespace parameter (true for the generated requests)"],
     },
+    "C02": {
+        "prop_files": ["Katib/Props/C02.lean"],
+        "n": {"quick": 4000, "thorough": 200000},
+        "rule": "template trees (depth <= 4, placeholders repeated and nested in maps/arrays, literals with $, ${, }, <&>, non-ASCII, backslashes, partial placeholder syntax) x 1-4 declared "
+                "trial parameters referencing assignments or trial metadata (Name, Namespace, Kind, APIVersion, Labels[k], Annotations[k], illegal ones) x assignments (clean values; "
+                "rarely missing/extra) through the real GetRunSpecWithHyperParameters from an inline trialSpec or a ConfigMap (YAML or JSON); plus batches of 1-4 assignments turned into "
+                "Trials by the real getTrialInstance on one Experiment object (labels, owner, rules); distinct = distinct op line",
+        "trusted": ["JSON/YAML (de)serialisation (ConvertUnstructuredToString / ConvertStringToUnstructured) and the reference regexps are oracles",
+                    "the harness's independent tree substitution (tree=) is the oracle for ConfigMap/YAML templates"],
+        "modelled": ["DefaultGenerator.applyParameters (placeholder map, count check, strings.Replace loop) as Katib.Tpl.placeholders/applyAll/replaceAll; getTrialInstance as Katib.Tpl.trialInstance"],
+        "level_text": "Lean theorems on strings: C02_replace_one, C02_apply_all (every occurrence of every declared placeholder replaced, nothing else changes), C02_any_order (map iteration "
+                      "order irrelevant), C02_no_placeholder_left; placeholder-map errors (C02_missing_assignment_error, C02_count_check, C02_meta_values); record level C02_trial_fields; "
+                      "differential run of the real generator (inline: exact text; ConfigMap: tree oracle) and of getTrialInstance batches",
+        "level_note": "trusted: Lean kernel; harness/check; JSON/YAML engines; hypotheses of the string theorems = the property's quantifier (names without $ and }, values and literals without $)",
+        "assumptions": ["assignment values are free of JSON/YAML metacharacters and placeholder syntax", "placeholders occur in string values, not in map keys"],
+    },
 }
